@@ -348,6 +348,8 @@ func c06(c *Ctx) {
 	}
 	r.Floor("C06.limit-owner", 1)
 	// the running sum is touched only by the frame parser and by NextReader's per-message reset
+	// the value whose sign is tested is the full 64-bit length the peer sent (no bit masked off before the test)
+	rd.parserRules("C06.sign", "", "", "")
 	rd.owners("C06.reset-per-message", rd.readLength, "(*Conn).advanceFrame", "(*Conn).NextReader")
 	r.Floor("C06.no-claimed-alloc", 8)
 }
